@@ -22,7 +22,7 @@ Restart(d) == St("restart", d, 0, "")
 Seqs(S, n) == UNION {[1..k -> S] : k \in 1..n}
 (* timer-centric steps: every way a timer can be created, fire, be reset or be dropped before firing *)
 TimerSteps == {Sleep(1), Sleep(2), Sleep(0), ToSleep(3, 1), ToSleep(1, 3), ToSleep(2, 2), ToNever(2), Select(1, 3), Select(3, 1),
-               Reset(3, 1), Reset(1, 3), PollDrop(2), PollDrop(4)}
+               Reset(3, 1), Reset(1, 3), Reset(2, 2), PollDrop(2), PollDrop(4)}
 (* two tasks with up to n timer steps each, both followed by a final sleep (the timer that must not be lost) *)
 ProgsTimers(n) == {[t \in Tasks |-> IF t = 1 THEN p1 \o <<Sleep(2)>> ELSE p2 \o <<Sleep(1)>>] : p1 \in Seqs(TimerSteps, n), p2 \in Seqs(TimerSteps, n)}
 ProgsT1 == ProgsTimers(1)
@@ -32,6 +32,10 @@ ProgsTimers1 == {[t \in Tasks |-> p \o <<Sleep(2)>>] : p \in Seqs(TimerSteps, 3)
 (* intervals and missed ticks *)
 IvlSteps == {Tick, Sleep(1), Sleep(3), Sleep(5)}
 ProgsIvl == {[t \in Tasks |-> <<IvlNew(2, mode)>> \o p \o <<Tick, Tick>>] : mode \in {"burst", "delay", "skip"}, p \in Seqs(IvlSteps, 3)}
+
+(* the same on a millisecond grid (period 10 ms): ticks picked up a little late (<= 5 ms: not "missed") and a lot late *)
+IvlStepsMs == {Tick, Sleep(3), Sleep(12), Sleep(14), Sleep(17), Sleep(30)}
+ProgsIvlMs == {[t \in Tasks |-> <<IvlNew(10, mode)>> \o p \o <<Tick, Tick>>] : mode \in {"burst", "delay", "skip"}, p \in Seqs(IvlStepsMs, 3)}
 
 (* channels between tasks and from the module: wake-ups inside one instant *)
 ChanSteps1 == {Sleep(1), Sleep(2), Send(1), SendSelf(1), SendSelf(2), Recv(0), ToRecv(3, 0)}
